@@ -178,3 +178,19 @@ Definition d_ec : sdesc :=
 Lemma empty_class_pinned_refuted :
   starts_spec (flags_of md_re) [97;98] h_ec = [] /\ model_scan d_ec [97;98] 1000 = [(0, 2)].
 Proof. vm_compute. split; reflexivity. Qed.
+
+(* ---- wide boundary, reverse context: /\Bb{0,2}a/s wide on b\0b\0a\0 *)
+Definition h_wrc : hir := HConcat [HAssert NonWordBoundary; HRep (HLit 98) (Bounded 0 2) true; HLit 97].
+Definition md_wrc : mods :=
+  {| m_fullword := false; m_wide := true; m_ascii := false; m_nocase := false; m_dot_all := true |}.
+Definition d_wrc : sdesc :=
+  {| s_lits := [[97;0]]; s_atoms := [(0, 0)]; s_kind := KGreedy; s_mods := md_wrc;
+     s_hir := h_wrc; s_pre := Some h_wrc; s_post := None |}.
+Definition m_wrc : list N := [98;0;98;0;97;0].
+
+(* offset 4 starts a member under the wide reading (\B between b and a); only offset 2 is reported *)
+Lemma wide_rev_context_refuted :
+  members_at md_wrc h_wrc m_wrc 4 = ([], [2])
+  /\ model_scan d_wrc m_wrc 1000 = [(2, 4)]
+  /\ kf_wide_rev_context d_wrc m_wrc = true.
+Proof. vm_compute. repeat split. Qed.
